@@ -174,7 +174,19 @@ func (l AbstractListSchema[ItemType]) ValidateCompatibility(typeOrData any) erro
 				itemsValueField.Interface()),
 		}
 	}
-	// Note: Not currently bothering with validating min and max fields
+	// The sizes must be able to overlap, as for maps.
+	minField := listSchemaField.FieldByName("MinValue")
+	maxField := listSchemaField.FieldByName("MaxValue")
+	if minField.IsValid() && maxField.IsValid() {
+		minValue, _ := minField.Interface().(*int64)
+		maxValue, _ := maxField.Interface().(*int64)
+		if (minValue != nil && l.MaxValue != nil && (*minValue) > (*l.MaxValue)) ||
+			(maxValue != nil && l.MinValue != nil && (*maxValue) < (*l.MinValue)) {
+			return &ConstraintError{
+				Message: "mutually exclusive lengths between list schemas",
+			}
+		}
+	}
 	// Validate the list sub-type
 	return l.ItemsValue.ValidateCompatibility(itemType)
 }
